@@ -171,8 +171,10 @@ fn behavioural(ctx: &mut Ctx, rng: &mut Rng, _i: u64) {
 pub fn run(ctx: &mut Ctx) {
     // each single blockable signal x each parent SIGPIPE disposition
     ctx.family("single-signal", 64 * 3, |ctx, _rng, i| {
-        let sig = (i % 64) as i32 + 1;
-        let mode = i / 64;
+        // the disposition changes from case to case within a worker (a library that remembers the parent's
+        // disposition from an earlier spawn must not get away with it)
+        let sig = (i / 3) as i32 + 1;
+        let mode = i % 3;
         if !blockable(sig) {
             return;
         }
